@@ -161,11 +161,45 @@ def gen_cases(ctx):
 
 def run(ctx):
     import genall
-    st = genall.run(["Consts", "Search", "Macros"])
-    for g, s in st.items():
-        if s.startswith("FAILED"):
-            ctx.tie_broken("translator group " + g, s)
-    ctx.props()
+    # T1: Gen/Consts.v, Gen/Search.v, Gen/Macros.v and Gen/ReduceC03.v (the arithmetic of sc_reduce_recursive / _alltoall / _custom_dispatch
+    # and the dispatch tables of the typed kernels; proved equal to the model in coq/C03/ReduceGen.v) are regenerated from the working
+    # tree before the theorems are checked; coq/Gen is shared: if another process regenerated a group meanwhile, the step is repeated
+    GROUPS = ["Consts", "Search", "Macros", "ReduceC03"]
+    for attempt in range(3):
+        st = genall.run(GROUPS)
+        nb, ob, di = len(ctx.broken), ctx.cov["obligations"], ctx.cov["discharged"]
+        for g, s in st.items():
+            ctx.log("c2g", g, s)
+            if s.startswith("FAILED"):
+                ctx.tie_broken("translator group " + g, s)
+        ctx.props()
+        st2 = genall.run(GROUPS)
+        if not any("(changed)" in v_ for v_ in st2.values()):
+            break
+        ctx.log("coq/Gen was regenerated by another process during the proof step: repeating")
+        del ctx.broken[nb:]
+        ctx.cov["obligations"], ctx.cov["discharged"] = ob, di
+    # the oracle's datatype tables (SZ, SIGNED above) against the generated dispatch tables of sc_reduce_max / _min / _sum:
+    # harness datatype k (DTN[k]) is the MPI datatype HARNESS_DT[k] of the numbering in Gen/ReduceC03.v
+    HARNESS_DT = ["sc_MPI_INT", "sc_MPI_UNSIGNED", "sc_MPI_LONG", "sc_MPI_FLOAT", "sc_MPI_DOUBLE", "sc_MPI_CHAR", "sc_MPI_SHORT",
+                  "sc_MPI_UNSIGNED_LONG", "sc_MPI_LONG_LONG_INT"]
+    try:
+        infos = json.load(open(os.path.join(vlib.COQ, "Gen", "ReduceC03.status"))).get("infos", [])
+        for op in ("max", "min", "sum"):
+            tab = [i for i in infos if i.get("name") == "reduce_%s_types" % op]
+            if len(tab) != 1:
+                if not st.get("ReduceC03", "").startswith("FAILED"):
+                    ctx.tie_broken("kernel table", "no generated table reduce_%s_types" % op)
+                continue
+            names = tab[0]["names"]
+            rows = dict((names[r[0]], (r[1], r[2], r[3])) for r in reversed(tab[0]["table"]))   # the FIRST branch that tests a datatype decides
+            for k, nm in enumerate(HARNESS_DT):
+                want = (SZ[k], 1 if SIGNED[k] in (True, None) else 0, 1 if SIGNED[k] is None else 0)
+                if rows.get(nm) != want:
+                    ctx.tie_broken("kernel table sc_reduce_%s" % op, "%s is reduced over (bytes, signed, floating) = %s, the oracle assumes %s for '%s'" % (
+                        nm, rows.get(nm), want, DTN[k]))
+    except (OSError, ValueError, KeyError, IndexError) as e:
+        ctx.tie_broken("kernel table", "cannot read the generated tables: %s" % e)
     v = ctx.variant(mpi="sim", san=True, cflags_extra=("-fno-sanitize=nonnull-attribute", "-fwrapv", "-fno-sanitize=signed-integer-overflow"))
     exe = ctx.cc([os.path.join(vlib.TOOLS, "harness", "c03_harness.c"), os.path.join(vlib.TOOLS, "simmpi", "simmpi.c")],
                  os.path.join(ctx.scratch, "c03_harness"), v)
@@ -313,7 +347,8 @@ def run(ctx):
     ctx.notes["distribution"] = dist
     for c in cases[:: max(1, len(cases) // 4)][:4]:
         ctx.sample({"P": c[0], "seed": c[1], "adversary": c[2], "op": c[3], "dtype": DTN[c[4]], "count": c[5], "target": c[6]})
-    ctx.cov["trusted_base"] = ["tools/simmpi and its trace", "Python float arithmetic as IEEE-754 binary64/binary32 (struct rounding) in the evaluation of symbolic payloads",
+    ctx.cov["trusted_base"] = ["T1: the per-rank arithmetic of sc_reduce_recursive / sc_reduce_alltoall / sc_reduce_custom_dispatch (bias arguments, tests, recursion arguments, peers, tag, operand order, slots) and the dispatch tables + integer element operations of sc_reduce_max / _min / _sum are proved EQUAL to Gen/ReduceC03.v, regenerated from the working tree on every run (tools/c2g + slicelib + clang-14 JSON AST trusted); the oracle's SZ / SIGNED tables are compared with the generated dispatch tables on every run",
+                               "tools/simmpi and its trace", "Python float arithmetic as IEEE-754 binary64/binary32 (struct rounding) in the evaluation of symbolic payloads",
                                "sc_reduce: the step from the per-rank programs (tied to the C code by co-simulation of every rank's trace) to the global "
                                "tree model under all interleavings is PROVED (C03_reduce_every_schedule, interleaving semantics of coq/MPI/Sem.v; "
                                "C03_allreduce_every_schedule for the literal posting-order program of sc_allreduce under the posted-receive "
